@@ -53,6 +53,7 @@ type Spec struct {
 	Env      []string          `json:"env"`
 	Target   string            `json:"target"`
 	SmtLog   string            `json:"smt_log"`
+	Tactic   string            `json:"tactic"`
 }
 
 type FindingOut struct {
@@ -334,6 +335,7 @@ func newInterp(prog *ssa.Program, spec *Spec, timeoutMs int) *Interp {
 	}
 	it.cfg = &Config{target: spec.Target, stubs: map[string]modelFn{}}
 	it.solver = NewSolver(timeoutMs, spec.Solver)
+	it.solver.tactic = spec.Tactic
 	return it
 }
 
